@@ -141,10 +141,113 @@ def load_known():
     return json.load(open(p))
 
 
+def evidence_dir():
+    """/verif/evidence, or a private directory when experimenting against a modified tree (VERIF_EVIDENCE_DIR)"""
+    d = os.environ.get('VERIF_EVIDENCE_DIR') or os.path.join(VERIF, 'evidence')
+    os.makedirs(d, exist_ok=True)
+    return d
+
+
 def write_evidence(pid, ev):
-    os.makedirs(os.path.join(VERIF, 'evidence'), exist_ok=True)
-    p = os.path.join(VERIF, 'evidence', pid + '.json')
+    p = os.path.join(evidence_dir(), pid + '.json')
     tmp = p + '.tmp'
     json.dump(ev, open(tmp, 'w'), indent=1, default=str)
     os.replace(tmp, p)
     return p
+
+
+# ---------------------------------------------------------------------------------------------- guided reachability search
+STEP_TO_HISTORY_OP = {
+    'delete_by_index': 'pred_delete', 'value_by_index': 'pred_read', 'value_by_index_mut': 'pred_write',
+    'index_after': 'pred_after', 'index_before': 'pred_before',
+}
+
+
+def canonical(pre, timed):
+    nodes = {n['slot']: n for n in pre['nodes']}
+
+    def go(i, depth=0):
+        if i == 0xFFFFFFFF or i not in nodes or depth > len(nodes):
+            return '-'
+        n = nodes[i]
+        return f"({n['key']},{n.get('exp', 0) if timed else 0},{'R' if n['red'] else 'B'}{go(n['left'], depth + 1)}{go(n['right'], depth + 1)})"
+    return go(pre['root'])
+
+
+def in_tree_nodes(pre):
+    nodes = {n['slot']: n for n in pre['nodes']}
+    out = []
+
+    def go(i, depth=0):
+        if i == 0xFFFFFFFF or i not in nodes or depth > len(nodes):
+            return
+        out.append(nodes[i])
+        go(nodes[i]['left'], depth + 1)
+        go(nodes[i]['right'], depth + 1)
+    go(pre['root'])
+    return out
+
+
+def guided_history(kind, opname, viol, limit=400000):
+    """search natively for a public-API history reaching a state isomorphic to the counterexample's pre-state, then append the
+    failing operation with the counterexample's arguments.  Returns a history dict or None."""
+    pre, args = viol['pre'], viol.get('args', {})
+    timed = kind == 'key'
+    tgt = in_tree_nodes(pre)
+    keys = sorted({n['key'] for n in tgt})
+    lines = [f'kind {kind}', f'canon {canonical(pre, timed)}', f'limit {limit}']
+    for n in tgt:
+        lines.append(f"entry {n['key']} {n.get('exp', 0) if timed else 0}")
+    # helper entries (removed again on the way): enable shapes that only arise after deletions
+    helpers = []
+    cands = [k for k in ([keys[0] - 1, keys[-1] + 1] if keys else [1]) if 0 <= k <= 255 and k not in keys]
+    for a, b in zip(keys, keys[1:]):
+        if b - a > 1:
+            cands.append((a + b) // 2)
+    for k in cands[:4]:
+        helpers.append(k)
+        lines.append(f'entry {k} 0')
+    if timed:
+        t_op = args.get('t', 0)
+        times = sorted({0, t_op} | {n.get('exp', 0) for n in tgt if n.get('exp', 0) <= t_op})
+        lines.append('times ' + ' '.join(str(t) for t in times))
+    path = os.path.join(scratch(), f'search.{time.time_ns()}.txt')
+    open(path, 'w').write('\n'.join(lines) + '\n')
+    b = build_replay('release')
+    try:
+        p = subprocess.run([b, '--search', path], stdout=subprocess.PIPE, stderr=subprocess.PIPE, text=True, timeout=300)
+    except subprocess.TimeoutExpired:
+        return None
+    found = [l for l in p.stdout.splitlines() if l.startswith('FOUND')]
+    if not found:
+        return None
+    ops = []
+    for tok in found[0].split()[1:]:
+        f = tok.split(':')
+        if f[0] == 'ins':
+            k = int(f[1])
+            if timed:
+                ops.append({'op': 'insert', 'k': k, 'x': int(f[2]), 'v': k ^ 0x55, 't': int(f[3])})
+            else:
+                ops.append({'op': 'insert', 'k': k, 'v': k ^ 0x55})
+        elif f[0] == 'del':
+            ops.append({'op': 'delete', 'k': int(f[1])})
+        elif f[0] == 'get':
+            ops.append({'op': 'get_value', 'k': int(f[1]), 'x': 0, 't': int(f[2])})
+    # the failing operation
+    hop = STEP_TO_HISTORY_OP.get(opname, opname)
+    last = {'op': hop}
+    if 'h' in args:
+        byslot = {n['slot']: n for n in pre['nodes']}
+        if args['h'] not in byslot:
+            return None
+        last['k'] = byslot[args['h']]['key']
+    for a in ('k', 'x', 'v', 't', 'd', 'p9', 'nv'):
+        if a in args:
+            last[a] = args[a]
+    if 'p' in args:
+        last['k'] = args['p']
+    if opname == 'is_part_of_the_tree':
+        return None
+    ops.append(last)
+    return {'kind': kind, 'capacity': 0, 'ops': ops}
